@@ -14,7 +14,10 @@ import calendar_oracle as CAL
 
 
 def run(ctx):
+    ctx.exhaustive = False
+    ctx.exhaustive_note = 'complete over the stated comparator / guard domains and over every day of the scenario years; not over all real dates'
     from rules import shared
+    ctx.include('effect_inventory', shared.effect_inventory)   # no new process-wide mutable state (MIR statics inventory)
     ctx.include('month_records', shared.month_records)   # leap table, solstice anchor, month memo, memo cells (shared, cached per source hash)
     ctx.include('jd_tables', shared.jd_tables)           # civil date <-> day number per (year, month) (shared, cached per source hash)
     p = ctx.prog
